@@ -114,7 +114,39 @@ func (x *fx) instrEnv(in ssa.Instruction) *specEnv {
 	return env
 }
 
+// calleeReaches: the current callee is one of the closures capturing the cell,
+// or receives one of them (or any function value that could wrap them) as an argument.
+func (x *fx) calleeReaches(c cellRef) bool {
+	cc := x.curCallee
+	if cc == nil {
+		return true
+	}
+	isCl := func(v ssa.Value) bool {
+		for _, cl := range c.closures {
+			if v == cl {
+				return true
+			}
+		}
+		return false
+	}
+	if isCl(cc.Value) {
+		return true
+	}
+	for _, a := range cc.Args {
+		if isCl(a) {
+			return true
+		}
+		if _, isFn := a.Type().Underlying().(*types.Signature); isFn {
+			if _, isMC := a.(*ssa.MakeClosure); !isMC {
+				return true // an opaque function value: could be anything
+			}
+		}
+	}
+	return false
+}
+
 func (x *fx) call(i *ssa.Call, cc *ssa.CallCommon) {
+	x.curCallee = cc
 	dname := calleeDisplayName(cc)
 	if i != nil && len(x.c.Asserts) > 0 {
 		ord := x.callOrdinal(i, dname)
@@ -167,8 +199,7 @@ func (x *fx) call(i *ssa.Call, cc *ssa.CallCommon) {
 				if oldV == newV {
 					continue
 				}
-				x.assume(fmt.Sprintf("(forall ((i %s)) (! (=> %s (= (select (select %s %s) i) (select (select %s %s) i))) :pattern ((select (select %s %s) i))))",
-					x.idxSort(), x.and(x.ile(r.lo, "i"), x.ilt("i", r.hi)), newV, r.ref, oldV, r.ref, newV, r.ref))
+				x.assume(x.keepRegion(r, newV, oldV))
 			}
 			x.assumptions["callee "+dname+" leaves "+strings.Join(x.c.CallKeepSrc[dname], ", ")+" unchanged (callkeeps)"] = true
 		}()
@@ -280,6 +311,13 @@ func (x *fx) havocAllMem(tagp string) {
 			for _, r := range x.localRefs {
 				x.assume(fmt.Sprintf("(= (select %s %s) (select %s %s))", nv, r, ov, r))
 			}
+			// so are variables captured only by closures that this callee neither is nor receives
+			for _, c := range x.cellRefs {
+				if !x.calleeReaches(c) {
+					x.assume(fmt.Sprintf("(= (select %s %s) (select %s %s))", nv, c.ref, ov, c.ref))
+					x.assumptions["a variable captured by closures is changed only by those closures or by a callee they are passed to"] = true
+				}
+			}
 		}
 	}
 	pre := x.curMem
@@ -294,8 +332,7 @@ func (x *fx) havocAllMem(tagp string) {
 	for _, r := range x.keepAllRegs {
 		oldV, newV := x.resolve(pre, r.mem), x.resolve(x.curMem, r.mem)
 		if oldV != newV {
-			x.assume(fmt.Sprintf("(forall ((i %s)) (! (=> %s (= (select (select %s %s) i) (select (select %s %s) i))) :pattern ((select (select %s %s) i))))",
-				x.idxSort(), x.and(x.ile(r.lo, "i"), x.ilt("i", r.hi)), newV, r.ref, oldV, r.ref, newV, r.ref))
+			x.assume(x.keepRegion(r, newV, oldV))
 		}
 	}
 	if len(x.keepAllRegs) > 0 {
@@ -416,8 +453,13 @@ func (x *fx) applyContract(c2 *Contract, f *ssa.Function, sig *types.Signature, 
 		defer func() { x.c = savedC }()
 		return x.evalBool(e, env)
 	}
+	preHolds := "true"
 	for k, cl := range c2.Requires {
 		g := evalIn(cl.E, envPre)
+		if savedC.NoPre {
+			preHolds = x.and(preHolds, g)
+			continue
+		}
 		if o := x.oblige("pre", name+":"+clauseLabel(cl, k), g, "precondition of "+name+": "+cl.Src); o != nil {
 			o.Src, o.Line = cl.Src, cl.Line
 		}
@@ -536,7 +578,11 @@ func (x *fx) applyContract(c2 *Contract, f *ssa.Function, sig *types.Signature, 
 	}
 	envPost.old = envPre
 	for _, cl := range c2.Ensures {
-		x.assumeAt(x.curPC, evalIn(cl.E, envPost))
+		e := evalIn(cl.E, envPost)
+		if preHolds != "true" {
+			e = "(=> " + preHolds + " " + e + ")"
+		}
+		x.assumeAt(x.curPC, e)
 	}
 	return res
 }
@@ -909,4 +955,14 @@ func (x *fx) callOrdinal(i *ssa.Call, name string) int {
 		}
 	}
 	return x.callOrd[i]
+}
+
+// keepRegion: region r has the same contents in memory versions newV and oldV.
+// Single-cell regions (fields of one struct object) need no quantifier.
+func (x *fx) keepRegion(r region, newV, oldV string) string {
+	if r.hi == x.iadd(r.lo, x.idxConst(1)) {
+		return fmt.Sprintf("(= (select (select %s %s) %s) (select (select %s %s) %s))", newV, r.ref, r.lo, oldV, r.ref, r.lo)
+	}
+	return fmt.Sprintf("(forall ((i %s)) (! (=> %s (= (select (select %s %s) i) (select (select %s %s) i))) :pattern ((select (select %s %s) i))))",
+		x.idxSort(), x.and(x.ile(r.lo, "i"), x.ilt("i", r.hi)), newV, r.ref, oldV, r.ref, newV, r.ref)
 }
